@@ -91,8 +91,8 @@ th!(c13_q_requests_2, 10, { requests_step(2) });
 //# funcs=RecvTransaction::process_pdu(EoF),finalize_receive; bound=3 requests; stubs=S1,S2,S3
 th!(c13_t_requests_3, 10, { requests_step(3) });
 
-//# funcs=RecvTransaction::process_pdu(EoF),finalize_receive,verify_checksum,handle_fault,finalize_file; bound=file transfer (4 bytes, complete) with 1 request; checksum mismatch or destination rejected: the request is not executed; stubs=S1,S2,S3,S5
-th!(c13_q_requests_only_after_delivery, 14, {
+//# funcs=RecvTransaction::process_pdu(EoF),finalize_receive,verify_checksum,handle_fault,finalize_file; bound=file transfer (4 bytes, complete, content and EOF checksum symbolic) with 1 request: it runs exactly when the checksum matches; stubs=S1,S2,S3,S5
+fn only_after_delivery(reject: bool) {
     let ch = chans();
     link_libc();
     verif::set_now(Duration::from_secs(NOW));
@@ -106,10 +106,13 @@ th!(c13_q_requests_only_after_delivery, 14, {
     p.received_file_size = 4;
     p.nak_received_file_size = 4;
     p.timer.inactivity = counter(10, 2, NOW - 1, 0, false, false);
-    let reject: bool = kani::any();
     unsafe { OPEN_DST_FAILS = reject };
     let cks: u32 = kani::any();
     let good = cks == ref_checksum(TMP, 4);
+    if reject {
+        // the checksum-failure path is the subject of the other instance
+        kani::assume(good);
+    }
     let mut t = RecvTransaction::verif_from_parts(p);
     let eof = EndOfFile { condition: Condition::NoError, checksum: cks, file_size: 4, fault_location: None };
     t.process_pdu(directive(A, Direction::ToReceiver, Operations::EoF(eof))).unwrap();
@@ -120,12 +123,14 @@ th!(c13_q_requests_only_after_delivery, 14, {
         assert!(unsafe { REQ_CALLS } == 0, "not delivered: no request runs");
         assert!(t.verif_condition() == if good { Condition::FileStoreRejection } else { Condition::FileChecksumFailure });
     }
-    kani::cover!(good && !reject, "delivered");
-    kani::cover!(good && reject, "rejected by the filestore");
-    kani::cover!(!good, "checksum failure");
+    kani::cover!(good, "checksum matches");
+    kani::cover!(reject || !good, "checksum failure / rejected");
     forget(t);
     forget(ch);
-});
+}
+th!(c13_q_requests_only_after_delivery, 14, { only_after_delivery(false) });
+//# funcs=RecvTransaction::process_pdu(EoF),finalize_receive,finalize_file,handle_fault; bound=as above, checksum matches but the filestore refuses the destination: the request is not executed, FileStoreRejection recorded; stubs=S1,S2,S3,S5
+th!(c13_q_requests_not_after_rejection, 14, { only_after_delivery(true) });
 
 //# funcs=SendTransaction::process_pdu(Finished); bound=Finished with 0..=2 responses, any codes; the sending user's indication carries them; stubs=S1,S2,S3
 th!(#[kani::stub(<std::hash::DefaultHasher as std::hash::Hasher>::finish, crate::c07::hasher_finish_stub)] c13_t_sender_reports_responses, 5, {
